@@ -389,7 +389,7 @@ def write_replay(prop, res, tier, extra=None):
 
 TIERS = {
     # runs, wall budget (s) for the search phase, determinism sample size
-    "quick": {"C03": (480, 150, 12), "C09": (640, 120, 12), "C10": (320, 170, 12)},
+    "quick": {"C03": (900, 150, 12), "C09": (800, 150, 12), "C10": (400, 200, 12)},
     "thorough": {"C03": (16000, 1500, 48), "C09": (24000, 1200, 48), "C10": (8000, 1800, 48)},
 }
 
